@@ -160,7 +160,7 @@ def remaining_fact(fs, ends, ptr_canon, need_const=None, need_canon=None, minus=
         for x, y, op in ((a[4], a[5], a[2]), (a[5], a[4], facts._flip_op(a[2]))):
             if op not in (">=", ">"):
                 continue
-            xx = strip_all_casts(x)
+            xx = strip_all_casts(facts.expand(fn, x, keep=ends) if fn is not None else x)
             m = 0
             if xx.get("k") == "bin" and xx.get("op") == "-" and const_value(xx["r"]) is not None and strip_all_casts(xx["l"]).get("k") == "bin":
                 m = const_value(xx["r"])
@@ -244,7 +244,7 @@ def run(ctx):
                         why = br
                 if not ok and cls == "CaptureModulePayload":
                     # the length is the size of a string_view produced by the walker; the walker's views are checked under R2c
-                    ok = any((callee_name(c) or "").endswith("::initStringView") for c in lenf.calls())
+                    ok = any(g.name.endswith("::initStringView") for g in fb.reachable_from([lenf]).values())
                     why = "length is the size of a view built by the walker (guards checked under C03-R2c)"
                 res.check(ok, "C03-R2b", key, lenf.loc, "length produced by a bounded reader / guarded walker", "%s()/%s(): %s" % (pg, lg, why))
         # ---- walkers: raw accesses in accessor-reachable member functions of the class (excluding builders and validators)
@@ -362,7 +362,7 @@ def bounded_reader(fb, g):
         fs = mf.at(d)
         w = (strip_all_casts(d["e"]).get("t") or {}).get("psize") or ((d.get("t") or {}).get("bits", 8) // 8)
         w = (d.get("t") or {}).get("bits", 8) // 8
-        if not remaining_fact(fs, ends, pdecl, need_const=w):
+        if not remaining_fact(fs, ends, pdecl, need_const=w, fn=g):
             return "%s reads %d bytes at its pointer without a live `(end - ptr) >= %d` guard (end = payloadData.data() + payloadData.size())" % (g.name.split("::")[-1], w, w)
     for r in g.returns():
         e = strip_all_casts(r["e"])
@@ -380,7 +380,7 @@ def bounded_reader(fb, g):
             conds = []
         fs = list(mf.at(r)) + conds
         for v in cands:
-            if not remaining_fact(fs, ends, pdecl, need_canon=canon(v), minus=2):
+            if not remaining_fact(fs, ends, pdecl, need_canon=canon(v), minus=2, fn=g):
                 return "%s returns the length read from the payload without the guard `(end - ptr) - 2 >= length`" % g.name.split("::")[-1]
     return True
 
